@@ -970,6 +970,7 @@ Proof.
   - destruct (d_budget (getd w d)) as [b|]; [|Rt].
     match goal with |- context[t_budget ?z] => step_dev w d (t_budget z) (dp_budget nw z); [exact I|] end.
     destruct (_ <? 1); [apply R_sched_pass|Rt].
+  - apply (R_dev w d _ _ (dp_add_offset nw z)); [kr|kn|ko|exact I].
   - apply R_rm_quiet, rm_quiet_add. reflexivity.
   - apply R_create_wo.
 Qed.
